@@ -1,7 +1,7 @@
 """Property id -> check function."""
 import json
 
-from . import client_checks, conn_checks, listen_checks
+from . import client_checks, conn_checks, data_checks, listen_checks
 from .common import *
 
 CHECKS = {
@@ -15,6 +15,7 @@ CHECKS = {
     "C13": listen_checks.check_C13,
     "C14": listen_checks.check_C14,
     "C15": listen_checks.check_C15,
+    "C17": data_checks.check_C17,
     "C20": client_checks.check_C20,
 }
 
